@@ -114,6 +114,8 @@ def run(tier, seed):
             actions.append({"act": "gen", "req": rq})
             if j % 4 == pi % 4:
                 actions.append({"act": "cli", "req": rq, "omit_dense": j % 8 < 4})
+            if j % 4 == (pi + 2) % 4:
+                actions.append({"act": "gen", "req": rq, "omit_dense": True})
         jobs.append(({"proc": f"p{pi}", "actions": actions}, hs, f"text{pi}"))
     # --- cache scenarios (one process), incl. eviction
     cache_actions = []
